@@ -35,6 +35,7 @@ EXPLANATION = (
     "(5) table and column read are the ones the constructor filled by calling the wrapped law's method of the "
     "same name, searched on that table's grid column, (6) grids are i*max/N for i=1..N resp. 1..2N, "
     "(7) single- and multi-point constructors agree. Not decided: numerical deviation < one class.")
+EXPLANATION += (' R-C07-9: the look-up methods are functions of the constructor-built tables and their arguments: they write no attribute of self (no cached class indices or results) and read none written by another look-up.')
 EXPLANATION += (' R-C07-8: the look-up tables are built once in the constructor and never re-ordered afterwards.')
 ASSUMPTIONS = [
     "numpy/pandas searchsorted(side='left') returns p with a[p-1] < v <= a[p] on an ascending array",
@@ -296,6 +297,36 @@ def run(ctx):
                     and any(k.arg == "inplace" and const_value(k.value) is True for k in st.value.keywords):
                 ctx.violated(fi, st, "table %s is re-ordered in place" % st.value.func.value.attr)
 
+    # ---------------------------------------------------------- R-C07-9: look-ups are functions of (tables, arguments)
+    ctx.rule("R-C07-9", floor=4, what="look-up methods keep no per-call state: no write to self, no read of state written by another look-up")
+    mnames = {m.name for m in methods}
+    built = set()
+    for name, defs in ci.methods.items():
+        if name in mnames:
+            continue
+        for st in walk_function(defs[-1].node):
+            if isinstance(st, (ast.Assign, ast.AugAssign)):
+                for t in (st.targets if isinstance(st, ast.Assign) else [st.target]):
+                    if is_self_attr(t):
+                        built.add(t.attr)
+    percall = set()
+    for fi in methods:
+        for st in walk_function(fi.node):
+            if isinstance(st, (ast.Assign, ast.AugAssign)):
+                for t in (st.targets if isinstance(st, ast.Assign) else [st.target]):
+                    base = t
+                    while isinstance(base, (ast.Subscript, ast.Attribute)) and not is_self_attr(base):
+                        base = base.value
+                    if is_self_attr(base):
+                        percall.add(base.attr)
+                        ctx.violated(fi, st, "%s stores per-call state in self.%s: a later look-up that reads it returns values "
+                                     "for the classes of another load (stale state, order of calls matters)" % (fi.name, base.attr),
+                                     text="%s writes self.%s" % (fi.name, base.attr))
+    for fi in methods:
+        reads = {n.attr for n in ast.walk(fi.node) if is_self_attr(n) and isinstance(n.ctx, ast.Load)}
+        if not (reads & percall):
+            ctx.holds(fi, fi.node, "%s reads only constructor-built attributes (%d) and writes none" % (fi.name, len(reads)))
+
     # ---------------------------------------------------------- reader side
     ctx.rule("R-C07-1", floor=12, what="every table-value return is dominated by a raising range guard on its own search result")
     ctx.rule("R-C07-2", floor=12, what="guard is equivalent to P >= N (load above last class edge)")
@@ -555,6 +586,17 @@ def _guards(m):
 
 def variants():
     out = []
+
+    def cache_index(tree):
+        f = find_func(tree, "Binned.stress")
+        for n in ast.walk(f):
+            if isinstance(n, ast.Return) and "_lut_primary_branch" in ast.unparse(n):
+                par = n._parent
+                blk = par.body if n in par.body else par.orelse
+                blk.insert(blk.index(n), parse_stmt("self._last_primary_index = index"))
+                return True
+        return False
+    out.append(witness("stress() remembers the class indices for strain()", PATH, cache_index, "R-C07-9"))
     names = ["stress", "strain", "stress_secondary_branch", "strain_secondary_branch"]
     for mi, mname in enumerate(names):
         for bi in range(3):
